@@ -83,9 +83,11 @@ impl<O: Clone + PartialEq, A: HasVar + Clone + PartialEq> Functor<O, A, O, A> fo
 
 // Are all elements of both lists equal? (not pairwise- equivalent to reduce(equal, concat(s, t)))
 fn all_elements_equal<T: PartialEq>(a: &[T], b: &[T]) -> bool {
-    a.iter()
-        .chain(b.iter())
-        .all(|x| *x == *a.first().unwrap_or(x))
+    let mut elements = a.iter().chain(b.iter());
+    match elements.next() {
+        Some(first) => elements.all(|x| x == first),
+        None => true,
+    }
 }
 
 // not public: no use for this except via forget_monogamous
